@@ -14,15 +14,6 @@ Definition is_sorting_perm (cells : list val) (p : list nat) : bool :=
   is_perm_of_range p (List.length cells) &&
   match take_pos p cells with Some cs => sorted_by sort_le cs | None => false end.
 
-(* the reference arrangement: the stable one (ties keep their prior order) *)
-Fixpoint sp_insert (cells : list val) (i : nat) (l : list nat) : list nat :=
-  match l with
-  | [] => [i]
-  | j :: r => if sort_lt (nth j cells VNone) (nth i cells VNone) then j :: sp_insert cells i r else i :: l
-  end.
-Definition stable_positions (cells : list val) : list nat :=
-  fold_right (sp_insert cells) [] (seq 0 (List.length cells)).
-
 Fixpoint list_same (a b : list val) : bool :=
   match a, b with
   | [], [] => true
